@@ -58,3 +58,35 @@ def roundtrip(f, ch):
         except Exception as e:  # noqa
             re_ = a_exc(e)
     return {'in': fin, 'ch': ch, 'out': out, 'un': un, 're': re_}
+
+
+def _call(fn, *a):
+    try:
+        return {'r': 'ok', 'b': list(fn(*a))}
+    except Exception as e:  # noqa
+        return a_exc(e)
+
+
+def toggle(mode):
+    if mode == 'noarg':
+        encode.support_deprecated_rabbitmq()
+    else:
+        encode.support_deprecated_rabbitmq(mode == 'true')
+    return {'arg': mode}
+
+
+def encode_fixed(fn, x):
+    return {'fn': fn, 'in': abstract(x), 'out': _call(getattr(encode, fn), x)}
+
+
+def marshal_part(obj):
+    """Frame.marshal() (arguments only) or Basic.Properties.marshal() called directly"""
+    from pamqp import base
+    from abstraction import a_props
+    if isinstance(obj, base.BasicProperties):
+        return {'kind': 'props', 'in': {'cls': 'Basic.Properties', 'props': a_props(obj)}, 'out': _call(obj.marshal)}
+    return {'kind': 'method', 'in': a_frame(obj), 'out': _call(obj.marshal)}
+
+
+def encode_arg(ty, v):
+    return {'ty': ty, 'in': abstract(v), 'out': _call(encode.by_type, v, ty)}
